@@ -130,9 +130,22 @@ CLAIMS = [
                 '2/3, units <= 2, terms <= 2. Level other: composition of facts + lemma is argued in DESIGN, not one obligation.',
         'design_ref': 'DESIGN.md section 4 C07',
     },
+    {
+        'property_id': 'C19',
+        'level': 'proof',
+        'technique': 'contract-based deductive verification: the real grad_fn of custom_reduce_prod (exposed by the '
+                     'tf.custom_gradient contract) against the partial-product spec per zero pattern; linearity-in-kernel '
+                     'with interpolation-weight coefficients for Lattice / PWL / Categorical (exact normal form, z3/cvc5)',
+        'text': 'grad[i] == dy * prod_{j != i} t_j and forward == prod for every enumerated zero pattern, shape and axis - for '
+                'ALL values of the non-zero entries and of dy; layer outputs are affine in the kernel with kernel-free '
+                'coefficients equal to the interpolation weights (>= 0, sum 1 for Lattice).',
+        'note': 'Trusted: TensorFlow autodiff of standard ops (chain rule; derivative of an affine map), operator contracts, '
+                'z3/cvc5, reals for floats. Bounded: tensors up to 2x3x2; small layer shapes.',
+        'design_ref': 'DESIGN.md section 4 C19',
+    },
 ]
 
 _PENDING = 'check not built yet in this session (planned, see DESIGN.md section 4); not claimed until its check exists'
 NOT_APPLICABLE = [
-    {'property_id': 'C%02d' % i, 'reason': _PENDING} for i in range(2, 21) if i not in (2, 4, 5, 6, 7, 12, 13, 20)
+    {'property_id': 'C%02d' % i, 'reason': _PENDING} for i in range(2, 21) if i not in (2, 4, 5, 6, 7, 12, 13, 19, 20)
 ]
